@@ -190,6 +190,9 @@ def run_verus_unit(u, tier):
         if not ok and not r.undecided:
             res['undecided'] = res['undecided'] or ('canary %s did not fail: the harness is not observing the code' % c)
     res['witnesses'] = u.get('witnesses', [])
+    if tier == 'thorough' and u.get('thorough_explorations'):
+        from . import replay
+        replay.run_explorations(res, u['thorough_explorations'], ROOT, BUILD)
     res['wall_s'] = time.time() - t0
     return res
 
